@@ -62,6 +62,8 @@ type authCase struct {
 	cc, ch   string
 	// peer key of the deployed chaincode the request is delivered to, when that chaincode is not named after its channel
 	deliverTo string
+	specName  string // what the submitter writes into the proposal's invocation spec ("" = the routed chaincode, "-" = nothing)
+	noHeader  bool   // a proposal without header (the shape of /repo's mock ledger)
 }
 
 func stateSnapshot(ch *Channel) map[string]string {
@@ -204,7 +206,19 @@ func authTerm(w *World, in *Interner, ac *authCase, argc int, acceptedAddr strin
 	} else {
 		res = "OReject " + strings.TrimPrefix(ac.Result, "reject:")
 	}
-	input := fmt.Sprintf("(AuthIn %d %s %s %s %s %s %s %s)", argc, coqStr(fn), coqList(args), coqStr(ac.cc), coqStr(ac.ch), aclTerm, coqList(keys), coqList(ac.sigSyms))
+	// the chaincode id the submitter wrote into the payload, and the one the peer routed by (the header extension)
+	specName, routed := ac.cc, "(Some "+coqStr(ac.cc)+")"
+	switch ac.specName {
+	case "":
+	case "-":
+		specName = ""
+	default:
+		specName = ac.specName
+	}
+	if ac.noHeader {
+		routed = "None"
+	}
+	input := fmt.Sprintf("(AuthIn %d %s %s %s %s %s %s %s %s)", argc, coqStr(fn), coqList(args), coqStr(specName), coqStr(ac.ch), aclTerm, coqList(keys), coqList(ac.sigSyms), routed)
 	return fmt.Sprintf("mkCase %s %d (%s) %s %d %d %s %s %s", input, ac.Route, res, coqBool(ac.Changed), ac.valid, ac.required, coqBool(aclOK), coqBool(ac.tampered), coqBool(ac.badSig))
 }
 
@@ -385,7 +399,9 @@ func (aw *authWorld) emit(c *Ctx, ac *authCase, aclMode string, argc int) {
 	if ac.deliverTo != "" {
 		dest = ac.deliverTo
 	}
+	aw.w.Peer.SpecCCName, aw.w.Peer.NoHeader = ac.specName, ac.noHeader
 	addr := authRun(aw.w, dest, ac, tag)
+	aw.w.Peer.SpecCCName, aw.w.Peer.NoHeader = "", false
 	aclTerm, aclOK, aclAcc := aclTermFor(aw, in, ac, argc, aclMode)
 	if ac.Result == "accept" && (aclAcc == nil || addr != aclAcc.AddrString()) {
 		aclOK = false
@@ -684,7 +700,7 @@ func (aw *authWorld) checkSignCase(c *Ctx, acc *Account, modes []SigMode, aclMod
 	for i, a := range ac.Args {
 		at[i] = coqStr(a)
 	}
-	input := fmt.Sprintf("(AuthIn 2 %s %s %s %s %s %s %s)", coqStr(fn), coqList(at), coqStr("tt"), coqStr("tt"), aclTerm, coqList(keyTerms), coqList(syms))
+	input := fmt.Sprintf("(AuthIn 2 %s %s %s %s %s %s %s (Some %s))", coqStr(fn), coqList(at), coqStr("tt"), coqStr("tt"), aclTerm, coqList(keyTerms), coqList(syms), coqStr("tt"))
 	term := fmt.Sprintf("mkCase %s 4 (%s) %s %d %d %s false %s", input, res, coqBool(ac.Changed), valid, len(acc.Members), coqBool(aclOK), coqBool(bad))
 	aw.setACL("ok", acc)
 	c.Emit(term, ac, true)
